@@ -51,38 +51,27 @@ structure RefReg where
 def RefReg.table (ρ : RefReg) (op : Op) : List (Ty × Handler) := (odGet op ρ.handlers).getD []
 def RefReg.coverOf (ρ : RefReg) (op : Op) : List Ty := (odGet op ρ.cover).getD []
 
-def refPick (H : Hier) (ρ : RefReg) (t : Ty) (kw : List (Op × Handler)) (op : Op) : Handler :=
-  match odGet op kw with
-  | some h => h
-  | none => match odGet t (ρ.table op) with
-    | some h => h
-    | none => match odGet op ρ.autoOps with
-      | some f => H.auto f t
-      | none => none
+def insertSet (t : Ty) (c : List Ty) : List Ty := if c.contains t then c else c ++ [t]
 
 /-- `register(t, exact=…, **kw)`: for every op that has an auto-discovery rule or is named in
-    `kw`, the type gets a handler; unless `exact`, the type now covers its subclasses for that op -/
+    `kw`, the type gets a handler (the keyword argument, else the one it already has, else the
+    auto-discovered one — `newOpMap`/`setHandlers` are plain table bookkeeping shared with the
+    model); unless `exact`, the type from now on covers its subclasses for each of these ops -/
 def refRegister (H : Hier) (ρ : RefReg) (t : Ty) (exact : Bool) (kw : List (Op × Handler)) : RefReg :=
-  let ops := (kw.map (·.1) ++ ρ.autoOps.map (·.1)).eraseDups
-  ops.foldl (fun acc op =>
-    { acc with
-      handlers := odSet op (odSet t (refPick H ρ t kw op) (acc.table op)) acc.handlers
-      cover := if exact then acc.cover else
-        odSet op (if (acc.coverOf op).contains t then acc.coverOf op else acc.coverOf op ++ [t]) acc.cover }) ρ
+  let newMap := newOpMap H ρ.handlers ρ.autoOps t kw
+  { handlers := setHandlers ρ.handlers t newMap
+    cover := if exact then ρ.cover else
+      newMap.foldl (fun cv p => odSet p.1 (insertSet t ((odGet p.1 cv).getD [])) cv) ρ.cover
+    autoOps := ρ.autoOps }
 
-def RefReg.knownTypes (ρ : RefReg) : List Ty :=
-  (ρ.handlers.flatMap (fun p => p.2.map (·.1))).eraseDups
-
-/-- `register_op(op, auto, exact)`: every known type without a handler for `op` gets the
+/-- `register_op(op, auto, exact)`: every known type (`known`) without a handler for `op` gets the
     auto-discovered one; unless `exact`, every known type covers its subclasses for `op` -/
-def refRegisterOp (H : Hier) (ρ : RefReg) (op : Op) (auto : String) (exact : Bool) : RefReg :=
-  let known := ρ.knownTypes
-  let tab := known.foldl (fun m t => match odGet t m with
-      | some _ => m
-      | none => odSet t (H.auto auto t) m) (ρ.table op)
-  let cov := if exact then ρ.coverOf op else
-    known.foldl (fun c t => if c.contains t then c else c ++ [t]) (ρ.coverOf op)
-  { handlers := odSet op tab ρ.handlers, cover := odSet op cov ρ.cover, autoOps := odSet op auto ρ.autoOps }
+def refRegisterOp (H : Hier) (ρ : RefReg) (op : Op) (auto : String) (exact : Bool) (known : List Ty) :
+    RefReg :=
+  let cov := if exact then ρ.coverOf op else known.foldl (fun c t => insertSet t c) (ρ.coverOf op)
+  { handlers := odSet op (fillAuto H auto known (ρ.table op)) ρ.handlers
+    cover := odSet op cov ρ.cover
+    autoOps := odSet op auto ρ.autoOps }
 
 /-- the handlers a lookup may return (`none` = no handler: `False` / UnregisteredTarget) -/
 def refAnswers (H : Hier) (ρ : RefReg) (op : Op) (t : Ty) : List Handler :=
@@ -95,11 +84,12 @@ def refAnswers (H : Hier) (ρ : RefReg) (op : Op) (t : Ty) : List Handler :=
       if al.isEmpty then [none] else al.filterMap (fun c => odGet c tab)
 
 def refFresh (H : Hier) (S : Setup) (d : Bool) : RefReg :=
-  let ρ0 := S.builtinOps.foldl (fun ρ o => refRegisterOp H ρ o.op o.auto o.exact) ({} : RefReg)
+  let ρ0 := S.builtinOps.foldl (fun ρ o => refRegisterOp H ρ o.op o.auto o.exact []) ({} : RefReg)
   if d then S.defaults.foldl (fun ρ x => refRegister H ρ x.ty x.exact x.kw) ρ0 else ρ0
 
 def refModule (H : Hier) (S : Setup) : RefReg :=
-  S.moduleOps.foldl (fun ρ o => refRegisterOp H ρ o.op o.auto o.exact) (refFresh H S true)
+  S.moduleOps.foldl (fun ρ o => refRegisterOp H ρ o.op o.auto o.exact (knownTypesOf ρ.handlers))
+    (refFresh H S true)
 
 /-- what the property promises about each kind of registry: the module registry and a *default*
     Glommer are the module-level registry ("a default Glommer behaves like the module-level glom");
@@ -112,7 +102,7 @@ def refMk (H : Hier) (S : Setup) : RegKind → RefReg
 
 def refStep (H : Hier) (w : List RefReg) : Action → List RefReg
   | .register i t e kw => updateAt (fun ρ => refRegister H ρ t e kw) i w
-  | .registerOp i op a e _ => updateAt (fun ρ => refRegisterOp H ρ op a e) i w
+  | .registerOp i op a e known => updateAt (fun ρ => refRegisterOp H ρ op a e known) i w
   | .lookup .. => w
 
 /-! ### observation and checker -/
@@ -148,7 +138,6 @@ def checkC13 (H : Hier) (S : Setup) (kinds : List RegKind) (acts : List Action)
 /-! ### decidable well-formedness of a hierarchy over a finite universe -/
 
 structure HierFacts (H : Hier) (top : Ty) : Prop where
-  sub_refl : ∀ c, H.sub c c = true
   sub_trans : ∀ a b c, H.sub a b = true → H.sub b c = true → H.sub a c = true
   sub_antisymm : ∀ a b, H.sub a b = true → H.sub b a = true → a = b
   sub_top : ∀ c, H.sub c top = true
@@ -161,7 +150,7 @@ structure HierFacts (H : Hier) (top : Ty) : Prop where
 
 /-- the same facts, checked on the finite universe of a case (what the driver reports as `wf`) -/
 def hierWF (H : Hier) (top : Ty) (U : List Ty) : Bool :=
-  U.all (fun c => H.sub c c && H.sub c top && H.inst c top &&
+  U.all (fun c => H.sub c top && H.inst c top &&
     (H.mro c).all (fun b => H.inst c b) &&
     U.all (fun d =>
       (!(H.sub c d && H.sub d c) || c == d) &&
